@@ -70,6 +70,14 @@ def oracle(case, rec):
         echain = np.asarray(emd.cycles.get_chain_vector(esub))
     except Exception as e:
         raise Violation('C16/get_subset_vector+get_chain_vector/raises/' + type(e).__name__, repr(e))
+    for alt in (np.asarray(sel, dtype=int), np.asarray(sel, dtype=float)):      # 0/1 selections in other dtypes
+        try:
+            asub = np.asarray(emd.cycles.get_subset_vector(alt))
+        except Exception as e:
+            raise Violation('C16/get_subset_vector/raises/%s/dtype=%s' % (type(e).__name__, alt.dtype), repr(e))
+        if not np.array_equal(asub, sub):
+            raise Violation('C16/get_subset_vector/wrong/dtype=%s' % alt.dtype,
+                            'selection %r: got %r expected %r' % (list(sel), asub.tolist(), sub.tolist()))
     if not np.array_equal(esub, sub):
         raise Violation('C16/get_subset_vector/wrong', 'selection %r: got %r expected %r' % (list(sel), esub.tolist(), sub.tolist()))
     if not np.array_equal(echain, chain):
